@@ -144,11 +144,10 @@ func enumB(thorough bool, samples *report.Samples) map[string]any {
 		for j := 0; j < 3; j++ {
 			counts[j] = probeFrameCounts(ctx0, mtu, j)
 		}
-		chunk := mtu - 60 // payload bytes of a single reference frame
 		for _, shape := range shapes {
 			for _, last := range lasts {
 				// ---- build the messages
-				var msgs []*bMsg
+				var want []int
 				ok := true
 				for j, k := range shape {
 					size := pickSize(counts[j], k, last)
@@ -156,64 +155,24 @@ func enumB(thorough bool, samples *report.Samples) map[string]any {
 						ok = false
 						break
 					}
-					tok, mark := msgAttach(j)
-					m := &bMsg{tok: tok, mark: mark, want: k}
-					if j == 1 {
-						if raw, l3, err := bigInterest(size, j); err == nil {
-							m.raw, m.l3, m.isData = raw, l3, false
-						}
-					}
-					if m.raw == nil {
-						raw, l3, err := dataOfSize(size, 1000+j)
-						if err != nil {
-							report.Fatal("%v", err)
-						}
-						m.raw, m.l3, m.isData = raw, l3, true
-					}
-					msgs = append(msgs, m)
+					want = append(want, size)
 				}
 				if !ok {
 					classesSkipped++
 					skipped = append(skipped, fmt.Sprintf("MTU=%d shape=%v last=%s: the sender never produces that many frames for a packet <= %d", mtu, shape, last, maxPacket))
 					continue
 				}
+				msgs := buildMsgs(shape, want)
 				var sizes []int
 				for _, m := range msgs {
 					sizes = append(sizes, len(m.raw))
 				}
 				for _, source := range []string{"sender", "reference"} {
 					// ---- frames
-					var frames [][]byte
-					if source == "sender" {
-						p := newPair(ctx0, mtu, base)
-						p.stx.VerifReset()
-						failed := false
-						for _, m := range msgs {
-							if pn := safely("sendPacket", func() { face.VerifC10Send(p.snd, mkOut(m)) }); pn != "" {
-								addVio("C10.order", pn, base, mtu, 0, pn, func() map[string]any { return map[string]any{"enumeration": "B", "mtu": mtu, "sizes": sizes} })
-								failed = true
-							}
-						}
-						if failed {
-							continue
-						}
-						for _, f := range p.stx.VerifFrames() {
-							frames = append(frames, append([]byte{}, f...))
-						}
-					} else {
-						seq := uint64(1000)
-						for _, m := range msgs {
-							// same number of fragments as wanted: chunk chosen per message
-							ch := chunk
-							if m.want > 1 {
-								ch = (len(m.raw) + m.want - 1) / m.want
-							} else if len(m.raw) > ch {
-								ch = len(m.raw)
-							}
-							fr := refFragment(m.raw, ch, seq, m.tok, m.mark)
-							seq += uint64(len(fr))
-							frames = append(frames, fr...)
-						}
+					frames, pn := buildFrames(ctx0, mtu, msgs, source)
+					if pn != "" {
+						addVio("C10.order", pn, base, mtu, 0, pn, func() map[string]any { return map[string]any{"enumeration": "B", "mtu": mtu, "sizes": sizes} })
+						continue
 					}
 					n := len(frames)
 					if n > 8 || n == 0 {
@@ -348,4 +307,73 @@ func firstDiff(a, b []byte) int {
 		}
 	}
 	return -1
+}
+
+// buildMsgs: message j of the class has sizes[j] bytes and is wanted in shape[j] fragments.
+// Message 1 is an Interest (several name components) when an Interest of that size exists, the
+// others are Data packets with distinct contents.
+func buildMsgs(shape, sizes []int) []*bMsg {
+	var msgs []*bMsg
+	for j, size := range sizes {
+		tok, mark := msgAttach(j)
+		m := &bMsg{tok: tok, mark: mark, want: shape[j]}
+		if j == 1 {
+			if raw, l3, err := bigInterest(size, j); err == nil {
+				m.raw, m.l3, m.isData = raw, l3, false
+			}
+		}
+		if m.raw == nil {
+			raw, l3, err := dataOfSize(size, 1000+j)
+			if err != nil {
+				report.Fatal("%v", err)
+			}
+			m.raw, m.l3, m.isData = raw, l3, true
+		}
+		msgs = append(msgs, m)
+	}
+	return msgs
+}
+
+// buildFrames: the frames of all messages in emission order, from the real sender ("sender") or
+// from the harness's reference fragmenter ("reference").
+func buildFrames(ctx *wctx, mtu int, msgs []*bMsg, source string) (frames [][]byte, panicked string) {
+	if source == "sender" {
+		p := newPair(ctx, mtu, cfg{fragOn: true})
+		p.stx.VerifReset()
+		for _, m := range msgs {
+			if pn := safely("sendPacket", func() { face.VerifC10Send(p.snd, mkOut(m)) }); pn != "" {
+				return nil, pn
+			}
+		}
+		for _, f := range p.stx.VerifFrames() {
+			frames = append(frames, append([]byte{}, f...))
+		}
+		return frames, ""
+	}
+	seq := uint64(1000)
+	for _, m := range msgs {
+		// as many fragments as wanted
+		ch := mtu - 60
+		if m.want > 1 {
+			ch = (len(m.raw) + m.want - 1) / m.want
+		} else if len(m.raw) > ch {
+			ch = len(m.raw)
+		}
+		fr := refFragment(m.raw, ch, seq, m.tok, m.mark)
+		seq += uint64(len(fr))
+		frames = append(frames, fr...)
+	}
+	return frames, ""
+}
+
+func buildOrderClass(ctx *wctx, mtu int, shape, sizes []int, source string) ([]*bMsg, [][]byte, error) {
+	if len(shape) != len(sizes) || len(shape) == 0 {
+		return nil, nil, fmt.Errorf("replay: shape %v and sizes %v do not match", shape, sizes)
+	}
+	msgs := buildMsgs(shape, sizes)
+	frames, pn := buildFrames(ctx, mtu, msgs, source)
+	if pn != "" {
+		return nil, nil, fmt.Errorf("%s", pn)
+	}
+	return msgs, frames, nil
 }
